@@ -254,6 +254,24 @@ CHECKS = {
         note=(TB_COMMON + "Convolution homogeneity and rsqrt are Section hypotheses/variables. The folded classes and convert/unfold utilities do "
               "not run under the pinned Keras 3 (two known findings): the anchored method bodies are executed on a duck-typed self."),
         technique="Coq proof (field identity with the convolution as a Section variable) + differential correspondence through unbound methods"),
+    "C20": dict(
+        category="proof",
+        text=("Coq theorems (Properties/C20.v): for EVERY reference layer list, limit dictionary (numeric limits and lists, regex patterns in any order), "
+              "quantization configuration, regex match table and tuner choice function (= every hyper-parameter assignment), each quantizer handed "
+              "out by _get_quantizer comes from the configuration of a role using that slot and obeys the limit slot of the pattern / class the layer "
+              "resolves to; every pick made while building a trial obeys its limit (fold invariant over quantize_model); layers outside the limits "
+              "get no quantizer; only layers at layer_indexes receive entries; a pattern group shares and records one choice per slot. Over the reals: "
+              "the forgiving factor is 0 at the reference size, positive below, negative above and strictly decreasing on the whole positive axis. "
+              "Size model: elements x bits, narrower quantizers never enlarge it. Correspondence: AutoQKHyperModel.quantize_model runs with a scripted "
+              "tuner on generated references x limits x layer_indexes x configurations, ALL assignments for small spaces; the q_dict handed to "
+              "model_quantize is compared with the Coq select model and judged directly against the limits; delta() signs / order and "
+              "compute_model_size are compared with the executable models. One genuine defect repaired."),
+        design_ref="DESIGN.md section 5 C20, section 10.4, 10.8",
+        note=(TB_COMMON + "The delta theorems use Coq's Reals: the standard library's real-number axioms (ClassicalDedekindReals.sig_forall_dec, "
+              "sig_not_dec, FunctionalExtensionality.functional_extensionality_dep, Classical_Prop.classic) are the only assumptions, as Print "
+              "Assumptions reports; everything else is closed. re.match is an oracle table; the installed keras_tuner does not import (known "
+              "finding), the tuner is a scripted object; tune_filters='none'; recurrent / separable references are not generated."),
+        technique="Coq proof (fold invariants over an executable model of the search-space construction; real analysis for the forgiving factor) + differential correspondence of the captured quantization dictionary, exhaustive over small hyper-parameter spaces"),
 }
 
 NOT_YET = "check not built yet in this development (design in DESIGN.md section 5); not a claim that proof is inapplicable"
